@@ -13,7 +13,7 @@ RULE = (
     'Planted and noisy datasets (water levels from -1350 to +2400 mm) x grid steps {1, .5, .1, .2, .3, .25, 2.5, 5, '
     '.7} mm x curve kind {rise, recession}: the curve is assembled without a reference (origin must be the highest '
     'level), then re-assembled with -r k*step for the levels k of the curve (quick: <= 24 per combination, thorough: '
-    'all up to 400), passed as the float k*step and, through the CLI, as the decimal text a user would type '
+    'all up to 400; level 0 always when the curve spans it), passed as the float k*step and, through the CLI, as the decimal text a user would type '
     '("%.10g"); the walker recomputes the master curve from the base tables and requires 0 at level k (1e-6 s / 1e-9 '
     'mm).  Off-grid references (k + {.5, .25, .01, .001}) * step must be refused with nothing written.  Non-trivial: '
     '(step, k) with k*step not exactly representable; distinct (kind, step, k) counted.'
@@ -31,6 +31,7 @@ REQUIRED = {
         'references-inexact-in-binary': 100,
         'references-via-cli-text': 10,
         'negative-references': 50,
+        'references-equal-to-zero': 4,
     }
     for tier in ('quick', 'thorough')
 }
@@ -61,7 +62,8 @@ def check_combo(ctx, case, kind, gs, rng, max_levels, n_cli, index):
         connection.close()
         return
     rec.case()
-    findings, stats = oracle_curves.walk_curve(connection, kind, None)
+    cache = {}
+    findings, stats = oracle_curves.walk_curve(connection, kind, None, None, cache)
     for p, k, w in findings:
         if p == PROPERTY:
             rec.violation('default-origin:' + k, w, case, 'combo:' + kind)
@@ -70,6 +72,8 @@ def check_combo(ctx, case, kind, gs, rng, max_levels, n_cli, index):
     levels = stats['levels']
     if len(levels) > max_levels:
         picked = sorted(set([levels[0], levels[-1]] + rng.sample(levels, max_levels - 2)))
+        # level 0 (reference "0") and its neighbours are always tried when the curve has them
+        picked = sorted(set(picked) | ({-1, 0, 1} & set(levels)))
     else:
         picked = levels
     db = None
@@ -109,7 +113,7 @@ def check_combo(ctx, case, kind, gs, rng, max_levels, n_cli, index):
                 rec.violation('on-grid-reference-refused' if key == 'refusal:reference-off-grid' else 'on-grid-reference-fails:' + key,
                               witness, dict(case, reference_level=k, curve=kind), 'combo:' + kind)
         else:
-            f2, _ = oracle_curves.walk_curve(target, kind, k)
+            f2, _ = oracle_curves.walk_curve(target, kind, k, None, cache)
             bad = [(p, kk, w) for p, kk, w in f2 if p == PROPERTY]
             for p, kk, w in bad:
                 rec.violation(kk, dict(witness, detail=w), dict(case, reference_level=k, curve=kind), 'combo:' + kind)
@@ -119,6 +123,8 @@ def check_combo(ctx, case, kind, gs, rng, max_levels, n_cli, index):
             target.close()
         if ref < 0:
             rec.hit('negative-references')
+        if k == 0:
+            rec.hit('references-equal-to-zero')
         import fractions
         if fractions.Fraction(ref) != fractions.Fraction(k) * fractions.Fraction(str(gs)):
             rec.hit('references-inexact-in-binary')
@@ -154,7 +160,13 @@ def run(ctx):
     rng = ctx.rng('c09')
     combos = 0
     for d in range(s['datasets']):
+        # the first dataset of every shard spans level 0, so that a reference of exactly 0 mm is exercised
         case = gen_planted.gen(rng) if d % 2 == 0 else gen_planted.gen_noisy(rng)
+        if d == 0:
+            zs = sorted(v for _, v in case['z'])
+            shift = -round(zs[len(zs) // 2])
+            case['z'] = [[t, v + shift] for t, v in case['z']]
+            case['truth'] = [dict(tr, R=[r + shift for r in tr['R']]) for tr in case['truth']]
         # rotate the step list so that the shards of a run cover all steps
         start = (ctx.shard * s['steps'] + d * 4) % len(STEPS)
         steps = [STEPS[(start + i) % len(STEPS)] for i in range(s['steps'])]
